@@ -95,9 +95,16 @@ func Denitmo(g *GlobalVarsMain) {
 	thetasat1 := (g.PORGES[0] + g.PORGES[1] + g.PORGES[2]) / 3
 	thetasat2 := (g.PORGES[3] + g.PORGES[4] + g.PORGES[5]) / 3
 	thetasat3 := (g.PORGES[6] + g.PORGES[7] + g.PORGES[8]) / 3
-	thetarel1 := thetaOb30 / thetasat1
-	thetarel2 := thetaOb60 / thetasat2
-	thetarel3 := thetaOb90 / thetasat3
+	// profiles with fewer than nine layers have no pore volume below: no water, not 0/0
+	relTheta := func(theta, thetasat float64) float64 {
+		if thetasat <= 0 {
+			return 0
+		}
+		return theta / thetasat
+	}
+	thetarel1 := relTheta(thetaOb30, thetasat1)
+	thetarel2 := relTheta(thetaOb60, thetasat2)
+	thetarel3 := relTheta(thetaOb90, thetasat3)
 	nitratOb30 := g.C1[0] + g.C1[1] + g.C1[2]
 	nitratOb60 := g.C1[3] + g.C1[4] + g.C1[5]
 	nitratOb90 := g.C1[6] + g.C1[7] + g.C1[8]
